@@ -134,6 +134,9 @@ type WF struct {
 	// created and run by the main goroutine while the first one runs in a
 	// goroutine of its own
 	Parallel    bool
+	// ParallelSlots / ParallelFiles: slots and number of input files (= tasks) of
+	// that second workflow (0: two slots, one file, a two-core task)
+	ParallelSlots, ParallelFiles int
 	// Twin: the program builds the workflow twice and runs both instances
 	// concurrently (two users re-running the same finished workflow at once)
 	Twin        bool
